@@ -50,7 +50,7 @@ type progResult struct {
 
 func main() {
 	run := ev.New("C03", ev.ArgTier(), "exploration")
-	run.Rule("random valid IDL programs with services (extends chains within and across files, oneway, void, throws, 0..4 arguments of every type) are compiled with the compiler under test; every own and inherited method is called through the emitted client over legs of the transport x protocol matrix against the emitted processor and a stub handler; per call: handler invoked exactly once (by correlation id), arguments equal (model-guided wire trees), caller observes exactly the handler's outcome (value / declared exception / INTERNAL_ERROR for an undeclared error / the handler's own application exception type), no reply frame for a successful oneway. distinct = (outcome class, leg) pairs + program feature vectors")
+	run.Rule("random valid IDL programs with services (extends chains within and across files, oneway, void, throws, 0..4 arguments of every type) are compiled with the compiler under test; every own and inherited method is called through the emitted client over legs of the transport x protocol matrix against the emitted processor and a stub handler; per call: handler invoked exactly once (by correlation id), arguments equal (model-guided wire trees), caller observes exactly the handler's outcome (value / declared exception / INTERNAL_ERROR for an undeclared error / the handler's own application exception type / nothing but a zero value for (nil, nil)), no reply frame for a successful oneway. A fixed two-file fixture (service extending an included one) adds, in a child process of its own: request and reply payloads (string, binary, declared exception) of own and inherited methods swept in one-byte steps across the 4096-byte boundaries on pipe and tcp for every protocol, and (nil, nil) for every kind of nillable result (struct, union, list, set, map, binary) on every transport x protocol; a crash of the serving side is attributed to the case in flight. distinct = (outcome class, leg) pairs + program feature vectors")
 	run.Assume("Apache Thrift Go library; embedded nats-server; verif/idl model, verif/gocodec reflection mapping, verif/stubgen stubs derived from the emitted interfaces")
 	nProgs, perBatch, calls := 6, 6, 4
 	var legs [][2]string
@@ -90,6 +90,13 @@ func main() {
 	specs = append(specs, emitbatch.ProgSpec{Sub: fmt.Sprintf("p%d", nProgs), Seed: 0, Cfg: "witness:specialdouble"})
 	var wg sync.WaitGroup
 	sem := make(chan struct{}, 4)
+	// the fixed fidelity fixture (frame sizes across buffer boundaries, nil
+	// results of every kind on every leg) is built and run next to the batches
+	wg.Add(1)
+	go func() {
+		defer wg.Done()
+		runFidelity(run)
+	}()
 	var mu sync.Mutex
 	rejected, uncompilable := 0, 0
 	var problems []string
@@ -131,15 +138,23 @@ func main() {
 			if err != nil {
 				out := string(o)
 				if strings.Contains(out, "panic:") || strings.Contains(out, "fatal error:") {
-					run.Violation("C03:harness-process-crash", "the process hosting emitted client/server code crashed: "+firstLines(out, 25), map[string]interface{}{"batch": bi, "programs": br.Live})
+					// the calls announced and not closed were in flight when the process died
+					flying, nilFlying := inFlight(bt.Out + ".progress")
+					sig := "C03:harness-process-crash"
+					if nilFlying {
+						sig = "C03:nil-return:serving-side-crash"
+					}
+					run.Violation(sig, fmt.Sprintf("the process hosting emitted client/server code crashed with %d calls in flight (%s): %s", len(flying), strings.Join(flying, "; "), crashHead(out, 25)), map[string]interface{}{"batch": bi, "programs": br.Live, "calls_in_flight": flying})
 				} else {
 					run.Inconclusive(fmt.Sprintf("batch %d: harness failed: %v: %s", bi, err, firstLines(out, 10)))
 				}
-				return
+				// the programs decided before the process ended still count
 			}
-			rb, err := os.ReadFile(bt.Out)
-			if err != nil {
-				run.Inconclusive(err.Error())
+			rb, rerr := os.ReadFile(bt.Out)
+			if rerr != nil {
+				if err == nil {
+					run.Inconclusive(rerr.Error())
+				}
 				return
 			}
 			var res []*progResult
@@ -194,6 +209,38 @@ func main() {
 		run.Violation("C03:core-program-not-compilable", fmt.Sprintf("%d core programs were rejected by the compiler and the emitted Go of %d does not build: %s", rejected, uncompilable, strings.Join(problems, " | ")), map[string]interface{}{"problems": problems})
 	}
 	os.Exit(run.Finish())
+}
+
+// inFlight reads a harness progress file: calls announced ("S token class
+// what") and not closed ("D token"); the second result tells whether one of
+// them had a handler returning (nil, nil).
+func inFlight(file string) ([]string, bool) {
+	b, err := os.ReadFile(file)
+	if err != nil {
+		return nil, false
+	}
+	open := map[string]string{}
+	var order []string
+	for _, l := range strings.Split(string(b), "\n") {
+		f := strings.Split(l, "\t")
+		switch {
+		case len(f) == 4 && f[0] == "S":
+			open[f[1]] = f[2] + ": " + f[3] + " [" + f[1] + "]"
+			order = append(order, f[1])
+		case len(f) == 2 && f[0] == "D":
+			delete(open, f[1])
+		}
+	}
+	var out []string
+	nilFlying := false
+	for _, t := range order {
+		if d, ok := open[t]; ok {
+			out = append(out, d)
+			nilFlying = nilFlying || strings.HasPrefix(d, "nil-value: ")
+			delete(open, t)
+		}
+	}
+	return out, nilFlying
 }
 
 func min(a, b int) int {
